@@ -542,10 +542,10 @@ class Interp:
             return v
         if "zst" in k:
             if "fn" in k:
-                return ("fnitem", k)
+                return ("fnitem", self._bind_fnitem(k, fr))
             return []
         if "fn" in k:
-            return ("fnitem", k)
+            return ("fnitem", self._bind_fnitem(k, fr))
         if "str" in k:
             b = list(k["str"].encode())
             return Slice(b, 0, len(b))
@@ -601,7 +601,7 @@ class Interp:
             # provenance stripped: never hand that to the program as a value
             raise Unsupported("constant allocation of type %s is not decoded" % ty)
         if "static" in k:
-            return self.static_ref(k["static"])
+            return self.static_ref(k["static"], ty)
         if "item" in k and "pidx" not in k and ("indirect" in k or "slice" in k):
             c = self.P.consts.get(self.P.norm(k["item"], False))
             if c is not None and ("bytes" in c or "str" in c or "v" in c):
@@ -620,6 +620,14 @@ class Interp:
                     if not isinstance(tyname, str):
                         continue
                     c = self.P.consts.get("<%s as %s>::%s" % (tyname, trait, cname))
+                    if c is None and "<" not in tyname:
+                        # the bin crate names a lib type by its re-exported path (`succinctly::jq::YqSemantics`
+                        # for `jq::eval::YqSemantics`): the implementor is the one type with that last segment
+                        last = tyname.rsplit("::", 1)[-1]
+                        suffix = " as %s>::%s" % (trait, cname)
+                        cands = [kk_ for kk_ in self.P.consts if kk_.endswith(suffix) and kk_[1:-len(suffix)].rsplit("::", 1)[-1] == last]
+                        if len(cands) == 1:
+                            c = self.P.consts[cands[0]]
                     if c is not None and ("v" in c or "adt2" in c or "adt" in c):
                         kk = dict(c)
                         kk.setdefault("ty", ty)
@@ -645,12 +653,45 @@ class Interp:
                     pf = _PromotedFn(owner, k["pidx"], pr)
                     cache[key] = self.run(pf, [], 0, fr.gen if fr is not None else None)
                 return cache[key]
-        raise Unsupported("constant %r" % (k,))
+        raise Unsupported("constant %r (in %s, generic bindings %r)" % (k, fr.fn.id if fr is not None and fr.fn is not None else None, fr.gen if fr is not None else None))
 
-    def static_ref(self, path):
+    def _bind_fnitem(self, k, fr):
+        """A function item named in a generic frame (`fold(.., arith_add::<S>)`) is called later with no
+        frame at hand: bind its generic arguments to the creating frame's now."""
+        g = k.get("g")
+        if not g or fr is None or not fr.gen:
+            return k
+        out = []
+        changed = False
+        for v in g:
+            b = fr.gen.get(v.strip())
+            if isinstance(b, tuple) and b[0] == "ty":
+                out.append(b[1])
+                changed = True
+            elif isinstance(b, int) and not isinstance(b, bool):
+                out.append(str(b))
+                changed = True
+            else:
+                out.append(v)
+        if not changed:
+            return k
+        k2 = dict(k)
+        k2["g"] = out
+        return k2
+
+    def static_ref(self, path, ty=None):
         path = self.P.norm(path, False)
         if path not in self.statics:
             c = self.P.consts.get(path)
+            if c is not None and "adt2" in c:
+                hf = Frame.__new__(Frame)
+                hf.fn = None
+                hf.locals = [self.const({"adt2": c["adt2"], "ty": c.get("ty", "")}, None)]
+                hf.id = -1
+                self.statics[path] = hf
+                return Ref(hf, 0, [])
+            if (c is None or "bytes" not in c) and ty is not None and not re.search(r"atomic::|OnceLock|OnceCell|Cell<|Mutex|RwLock", ty):
+                raise Unsupported("static %s of type %s has no decoded initial value" % (path, ty))
             if c is None or "bytes" not in c:
                 # statics of non-array type (atomics used as detection caches): a zero-initialised cell
                 hf = Frame.__new__(Frame)
@@ -711,6 +752,8 @@ class Interp:
             return parts[idx].strip() if idx < len(parts) else "?"
         base = ty.split("<", 1)[0]
         a = self.P.adts.get(base)
+        if a is None:
+            a = self.P.adts.get(self.P.norm(base, False)) or self.P.adts.get("bin::" + base)
         if a is None:
             return "?"
         try:
@@ -909,7 +952,7 @@ class Interp:
                     # from its variant indices (0, 1, 2)
                     return v.vi - 1
                 return v.vi
-            raise Unsupported("discriminant of %r" % (v,))
+            raise Unsupported("discriminant of %r (%s, place %r)" % (v, fr.fn.id, rv[1]))
         if k == "rep":
             v = self.operand(fr, rv[1])
             if rv[2] is None:
@@ -990,7 +1033,7 @@ class Interp:
                 exact = {"Add": a + b, "Sub": a - b, "Mul": a * b}[base]
                 w = wrap(exact, ity)
                 return [w, int(w != exact)]
-            raise Unsupported("binop %s into type %s" % (op, dty))
+            raise Unsupported("binop %s into type %s (%s, place %r)" % (op, dty, fr.fn.id, dest))
         if op == "Add":
             r = a + b
         elif op == "Sub":
@@ -1118,7 +1161,15 @@ class Interp:
                         gen[nm] = fr.gen[v]
                     else:
                         gen[nm] = ("ty", v)
-            return self.run(body, args, depth + 1, gen)
+            try:
+                return self.run(body, args, depth + 1, gen)
+            except Unsupported as e_:
+                ch = getattr(e_, "chain", None)
+                if ch is None:
+                    ch = e_.chain = []
+                if len(ch) < 8:
+                    ch.append("%s%r" % (body.id, gen))
+                raise
         # unresolved trait method (generic receiver): dispatch on the receiver's concrete type
         if "::" in name and args:
             tr, meth = name.rsplit("::", 1)
